@@ -23,6 +23,11 @@ var menu []entry
 func add(src string, ast spec.Expr) {
 	if src == "" {
 		src = spec.Render(ast)
+		// the abbreviated rendering of the same tree must behave identically
+		if ab := spec.RenderAbbrev(ast); ab != src {
+			g := xsel.MustBuildExpr(ab)
+			menu = append(menu, entry{src: ab, ast: ast, g: &g})
+		}
 	}
 	g := xsel.MustBuildExpr(src)
 	menu = append(menu, entry{src: src, ast: ast, g: &g})
@@ -84,6 +89,16 @@ func Setup() {
 			add("", spec.Rel(spec.S(ax1, tNode), spec.S(ax2, tNode)))
 		}
 	}
+	// predicates on attribute- and namespace-axis steps that contain child steps
+	tC := spec.NameTest("", "c")
+	for _, ax := range []string{"attribute", "namespace"} {
+		add("", spec.Rel(spec.S(ax, tAny, spec.Rel(spec.S("parent", tNode), spec.S("child", tA)))))
+		add("", spec.Rel(spec.S(ax, tAny, spec.Rel(spec.S("parent", tNode), spec.S("child", tAny)))))
+		add("", spec.AbsP(dos, spec.S(ax, tAny, spec.AbsP(dos, spec.S("child", tC)))))
+		add("", spec.AbsP(dos, spec.S(ax, tAny, spec.Rel(spec.S("child", tAny)))))
+		add("", spec.AbsP(dos, spec.S(ax, tAny, spec.Rel(spec.S("parent", tNode), spec.S("attribute", tAny)))))
+	}
+	add("", spec.AbsP(dos, spec.S("child", tAny, spec.Rel(spec.S("attribute", tAny, spec.Rel(spec.S("parent", tNode), spec.S("child", tAny)))))))
 	// absolute paths inside predicates and function arguments, from any context
 	add("", spec.Rel(spec.S("self", tNode, spec.AbsP(spec.S("child", tA)))))
 	add("", spec.Fn("count", spec.AbsP(dos, spec.S("child", tA))))
